@@ -14,11 +14,13 @@
 (* never retried).  GameSpy 3 and JC2M first shake hands: the data request *)
 (* must carry exactly the challenge of the handshake reply of the same     *)
 (* attempt.  Mindustry opens a new socket per attempt; Savage 2 does not   *)
-(* retry at all.                                                           *)
+(* retry at all.  FFOW rides on the Valve transport: the server may        *)
+(* answer a request with a challenge, which the client echoes in a         *)
+(* re-sent request within the same attempt (any number of rounds).         *)
 (***************************************************************************)
 EXTENDS Naturals, Sequences, FiniteSets, TLC, Json
 
-CONSTANTS Protos, Retries, Outcomes, Emit
+CONSTANTS Protos, Retries, Outcomes, Emit, MaxRounds
 
 \* steps of one attempt, and the request template of every send
 Steps(p) == CASE p \in {"gs3", "jc2m"} -> <<"send", "recv", "send", "recv">>
@@ -31,6 +33,8 @@ Sends(p) == CASE p = "quake1" -> <<"quake1.status">> [] p = "quake2" -> <<"quake
               [] p = "bedrock" -> <<"bedrock.ping">> [] p = "legacy16" -> <<"legacy16.ping">>
               [] p = "legacy14" -> <<"legacy14.ping">> [] p = "legacyb18" -> <<"legacyb18.ping">>
               [] p = "mindustry" -> <<"mindustry.ping">> [] p = "savage2" -> <<"savage2.info">> [] p = "ffow" -> <<"ffow.info">>
+ChalLoop(p) == p = "ffow"            \* a "chal" outcome is possible: re-send carrying the challenge, same attempt
+ChalTemplate(p) == "ffow.infochal"
 RetriesAtAll(p) == p # "savage2"
 ReopensPerAttempt(p) == p = "mindustry"
 AllProtos == {"quake1", "quake2", "quake3", "gs1", "gs2", "gs3", "jc2m", "java", "bedrock", "legacy16", "legacy14", "legacyb18",
@@ -41,13 +45,15 @@ VARIABLES cfg,      \* [p, r]
           net,      \* replies queued for the client (each "good" | "bad")
           sent,     \* <<[tpl, attempt, chal]>>   chal: 0 = none, else the attempt whose handshake reply issued it
           chal,     \* challenge received in this attempt (0 = none yet)
+          rounds,   \* challenge rounds played in this attempt (challenge-loop protocols)
+          pend,     \* challenge round whose value the next request must carry (0 = none)
           opens, rcvd, result,
           hist      \* outcome chosen by the server for every recv step reached: "good" | "silent" | "bad"
-vars == <<cfg, attempt, step, net, sent, chal, opens, rcvd, result, hist>>
+vars == <<cfg, attempt, step, net, sent, chal, rounds, pend, opens, rcvd, result, hist>>
 
 Pending == [state |-> "pending", err |-> ""]
 Init == /\ cfg \in [p : Protos, r : Retries]
-        /\ attempt = 1 /\ step = 1 /\ net = <<>> /\ sent = <<>> /\ chal = 0 /\ opens = 1 /\ rcvd = 0
+        /\ attempt = 1 /\ step = 1 /\ net = <<>> /\ sent = <<>> /\ chal = 0 /\ rounds = 0 /\ pend = 0 /\ opens = 1 /\ rcvd = 0
         /\ result = Pending /\ hist = <<>>
 
 Running == result.state = "pending"
@@ -59,15 +65,17 @@ AnsweredNext == step < Len(Steps(cfg.p)) /\ Steps(cfg.p)[step + 1] = "recv"
 \* the client sends; the server decides what the following recv step will see
 Send ==
   /\ Running /\ Steps(cfg.p)[step] = "send"
-  /\ sent' = Append(sent, [tpl |-> Sends(cfg.p)[NthSend], attempt |-> attempt,
-                           chal |-> IF Sends(cfg.p)[NthSend] \in {"gs3.data", "jc2m.data"} THEN chal ELSE 0])
+  /\ sent' = Append(sent, [tpl |-> IF pend # 0 THEN ChalTemplate(cfg.p) ELSE Sends(cfg.p)[NthSend], attempt |-> attempt,
+                           chal |-> IF Sends(cfg.p)[NthSend] \in {"gs3.data", "jc2m.data"} THEN chal ELSE 0,
+                           round |-> pend])
   /\ IF AnsweredNext
      THEN \E o \in Outcomes :
+            /\ o = "chal" => (ChalLoop(cfg.p) /\ rounds < MaxRounds)
             /\ net' = IF o = "silent" THEN net ELSE Append(net, o)
             /\ hist' = Append(hist, o)
      ELSE UNCHANGED <<net, hist>>
-  /\ step' = step + 1
-  /\ UNCHANGED <<cfg, attempt, chal, opens, rcvd, result>>
+  /\ step' = step + 1 /\ pend' = 0
+  /\ UNCHANGED <<cfg, attempt, chal, rounds, opens, rcvd, result>>
 
 Complete == step = Len(Steps(cfg.p))
 
@@ -77,24 +85,31 @@ RecvGood ==
   /\ IF Complete THEN result' = [state |-> "ok", err |-> ""] /\ UNCHANGED <<step, chal>>
      ELSE /\ step' = step + 1 /\ UNCHANGED result
           /\ chal' = attempt        \* the handshake reply issued a challenge (identified by the attempt)
-  /\ UNCHANGED <<cfg, attempt, sent, opens, hist>>
+  /\ UNCHANGED <<cfg, attempt, sent, rounds, pend, opens, hist>>
+
+\* a challenge: the same request is sent again, carrying it; not a new attempt
+RecvChal ==
+  /\ Running /\ Steps(cfg.p)[step] = "recv" /\ net # <<>> /\ Head(net) = "chal"
+  /\ net' = Tail(net) /\ rcvd' = rcvd + 1
+  /\ rounds' = rounds + 1 /\ pend' = rounds + 1 /\ step' = step - 1
+  /\ UNCHANGED <<cfg, attempt, sent, chal, opens, result, hist>>
 
 RecvBad ==
   /\ Running /\ Steps(cfg.p)[step] = "recv" /\ net # <<>> /\ Head(net) = "bad"
   /\ net' = Tail(net) /\ rcvd' = rcvd + 1
   /\ result' = [state |-> "err", err |-> "malformed"]
-  /\ UNCHANGED <<cfg, attempt, step, sent, chal, opens, hist>>
+  /\ UNCHANGED <<cfg, attempt, step, sent, chal, rounds, pend, opens, hist>>
 
 RecvTimeout ==
   /\ Running /\ Steps(cfg.p)[step] = "recv" /\ net = <<>>
   /\ IF attempt < MaxAttempts
-     THEN /\ attempt' = attempt + 1 /\ step' = 1 /\ chal' = 0
+     THEN /\ attempt' = attempt + 1 /\ step' = 1 /\ chal' = 0 /\ rounds' = 0 /\ pend' = 0
           /\ opens' = IF ReopensPerAttempt(cfg.p) THEN opens + 1 ELSE opens
           /\ UNCHANGED result
-     ELSE /\ result' = [state |-> "err", err |-> "timeout"] /\ UNCHANGED <<attempt, step, chal, opens>>
+     ELSE /\ result' = [state |-> "err", err |-> "timeout"] /\ UNCHANGED <<attempt, step, chal, rounds, pend, opens>>
   /\ UNCHANGED <<cfg, net, sent, rcvd, hist>>
 
-Next == Send \/ RecvGood \/ RecvBad \/ RecvTimeout
+Next == Send \/ RecvGood \/ RecvChal \/ RecvBad \/ RecvTimeout
 Spec == Init /\ [][Next]_vars /\ WF_vars(Next)
 
 -----------------------------------------------------------------------------
@@ -104,7 +119,15 @@ RetryOnlyAfterTimeout == [][attempt' > attempt => (net = <<>> /\ Steps(cfg.p)[st
 SendsBounded == Len(sent) <= MaxAttempts * Len(Sends(cfg.p)) + rcvd
 \* the data request carries the challenge of the handshake reply of the same attempt, nothing older
 ChallengeFresh == \A i \in 1 .. Len(sent) : sent[i].chal # 0 => sent[i].chal = sent[i].attempt
-OnlyProtocolRequests == \A i \in 1 .. Len(sent) : \E k \in 1 .. Len(Sends(cfg.p)) : sent[i].tpl = Sends(cfg.p)[k]
+\* challenge loop: a request carries a challenge exactly when the reply before it (same attempt) was a challenge, and it is
+\* the challenge of that round
+RoundEchoed == \A i \in 1 .. Len(sent) :
+                 IF ChalLoop(cfg.p) /\ i > 1 /\ hist[i - 1] = "chal"
+                 THEN sent[i].round # 0 /\ sent[i].attempt = sent[i - 1].attempt /\ sent[i].round = sent[i - 1].round + 1
+                 ELSE sent[i].round = 0
+OnlyProtocolRequests == \A i \in 1 .. Len(sent) :
+                          \/ \E k \in 1 .. Len(Sends(cfg.p)) : sent[i].tpl = Sends(cfg.p)[k]
+                          \/ ChalLoop(cfg.p) /\ sent[i].tpl = ChalTemplate(cfg.p) /\ sent[i].round # 0
 ErrorClassFaithful == result.state = "err" => result.err \in {"timeout", "malformed"}
 AllTimeoutsGiveTimeout == (result.state = "err" /\ \A i \in 1 .. Len(hist) : hist[i] = "silent") => result.err = "timeout"
 OpensBounded == opens <= MaxAttempts
